@@ -3,7 +3,7 @@
    0x46af6449, 32 trailing zero steps).  Spec: Spec/Crc32.v (textbook bit-serial register, polynomial
    0x04C11DB7, initial value 0xFFFFFFFF, MSB first, no reflection, no final XOR).
    This file holds only the statements; proofs live in Proofs/CrcRegister.v. *)
-From Gots Require Import Base.Prelude Model.Crc Spec.Crc32 Proofs.CrcRegister Proofs.CrcUnique Proofs.CrcTable Proofs.CrcLinear.
+From Gots Require Import Base.Prelude Model.Crc Spec.Crc32 Proofs.CrcRegister Proofs.CrcUnique Proofs.CrcTable Proofs.CrcLinear Proofs.CrcDetect.
 Local Open Scope N_scope.
 
 (* for EVERY byte string (no length bound, no side condition) the four bytes returned are the
@@ -73,6 +73,18 @@ Theorem C13_single_bit_all : forall L i j, (i < L)%nat -> (j < 8)%nat ->
   length (Crc32.singles_fast L) = (8 * L)%nat.
 Proof. exact single_bit_all. Qed.
 Print Assumptions C13_single_bit_all.
+
+(* error detection: flipping any single bit of any message changes the register; hence a section that passes the
+   receivers' check fails it after any single-bit error (in the body or in the CRC field) *)
+Theorem C13_single_bit_error_changes_crc : forall (bs : bytes) i j, (i < length bs)%nat -> (j < 8)%nat ->
+  Crc32.crc (Crc32.flip bs i j) <> Crc32.crc bs.
+Proof. exact single_bit_error_changes_crc. Qed.
+Print Assumptions C13_single_bit_error_changes_crc.
+
+Theorem C13_single_bit_error_detected : forall (s : bytes) i j, (i < length s)%nat -> (j < 8)%nat ->
+  Crc32.residue_ok s -> ~ Crc32.residue_ok (Crc32.flip s i j).
+Proof. exact single_bit_error_detected. Qed.
+Print Assumptions C13_single_bit_error_detected.
 
 (* non-vacuity / sanity of the specification: catalogue check value of CRC-32/MPEG-2 ("123456789" -> 0x0376E6E7),
    and the model on the same input *)
